@@ -122,6 +122,26 @@ def drive_products(rec, ells):
                 if len(got) == 2 and got["ref"] != got["avx2"]:
                     rec.violation("worst-case q120 product %s ell=%d pattern=%s: reference and AVX2 disagree modulo a prime" % (kind, ell, pat),
                                   {"ref": got["ref"], "avx2": got["avx2"]})
+    # tables built afresh in the reverse order (b*c, b*b, a*a): the split point of a table may not depend on the tables built before it
+    if ells and max(ells) < 1000:
+        fresh = {}
+        for kd in ("bbc", "bbb", "baa"):
+            fresh[kd] = L.fn("q120_new_vec_mat1col_product_%s_precomp" % kd, "p ")()
+        for (kind, lx, ly) in [("baa", "a", "a"), ("bbb", "b", "b"), ("bbc", "b", "c")]:
+            ell = 102
+            xs = [c10.lanes(qc, lx, "max", rng, i) for i in range(ell)]
+            ys = [c10.lanes(qc, ly, "max", rng, i) for i in range(ell)]
+            for impl in ("ref", "avx2"):
+                label = "worst-case q120 product %s_%s ell=%d pattern=max, tables built in the order bbc/bbb/baa" % (kind, impl, ell)
+                if not rec.progress(label):
+                    continue
+                res = q120.product(qc, kind, impl, xs, ys, pre=fresh[kind])
+                rec.case(("worst-order", kind, impl))
+                if res is None:
+                    rec.violation(label + ": memory contract broken", {})
+                    continue
+                events.append({"e": "QProd", "kind": kind, "impl": impl, "ell": ell, "x": [c10.elem_residues(qc, lx, e) for e in xs],
+                               "y": [c10.elem_residues(qc, ly, e) for e in ys], "res": [qc.residues(r) for r in res], "_what": label})
     rec.data["events"] = events
 
 
